@@ -123,7 +123,20 @@ func trunc(s string) string {
 // the risk.
 func genC19Packet(t *rapid.T, w *world.World) kit.Transfer {
 	tr := genBroadTransfer(t, w)
-	switch pick(t, "c19/class", []string{"plain", "plain", "mutated", "mutated", "mutated", "two-unknown", "hostile", "hostile", "receiver", "hostile-actions", "hostile-actions"}) {
+	switch pick(t, "c19/class", []string{"plain", "plain", "mutated", "mutated", "mutated", "two-unknown", "hostile", "hostile", "receiver", "hostile-actions", "hostile-actions", "oneof", "oneof"}) {
+	case "oneof":
+		// an otherwise valid, executable transfer whose fee info also carries the other member
+		// of its fee-type oneof (null, empty or a value): whichever way the chain reads it, every
+		// replay must read it the same way
+		vt := genC08Probe(t, w)
+		vt.Actions = []kit.Action{{Kind: "fee", Fees: []kit.Fee{{Recipient: kit.PlainUser(t, "oneof/rcpt"), Bps: 100}, {Recipient: kit.PlainUser(t, "oneof/rcpt2"), Fixed: "3"}}}}
+		if memo, err := kit.BuildMemo(w.Cdc, vt, false); err == nil {
+			if tree, err := kit.ParseJSON(memo); err == nil && kit.OneofSibling(t, tree) {
+				m := tree.String()
+				vt.RawMemo = &m
+				tr = vt
+			}
+		}
 	case "hostile-actions":
 		// several pre-actions that are invalid for different reasons at once
 		if memo, err := kit.BuildMemo(w.Cdc, tr, false); err == nil {
